@@ -252,6 +252,9 @@ class HTTP(BaseComponent):
                     )
                 req.server = self._server
                 res = wrappers.Response(req, encoding=self._encoding)
+                if req.protocol[0] != self.protocol[0]:
+                    # (see the 505 below: answer in a version this server speaks)
+                    res.protocol = 'HTTP/{:d}.{:d}'.format(*self.protocol)
                 del self._buffers[sock]
                 return self.fire(httperror(req, res, 400))
             return None
